@@ -2,6 +2,7 @@ SPECIFICATION Spec
 CONSTANTS
   Configs <- ConfigsBug257
   Budget = 0
+  Window <- WindowAll
   Bug = "Trunc8"
 INVARIANT TableAtDone
 INVARIANT TableStaysOK
